@@ -26,6 +26,34 @@ func calleeFunc(cc *ssa.CallCommon) *ssa.Function {
 	return cc.StaticCallee()
 }
 
+// calleeOrigin is the static callee with generic instantiations mapped back
+// to their generic origin.
+func calleeOrigin(cc *ssa.CallCommon) *ssa.Function {
+	fn := calleeFunc(cc)
+	if fn != nil && fn.Origin() != nil {
+		return fn.Origin()
+	}
+	return fn
+}
+
+// callsFn: instruction i is a call/go/defer whose static callee is one of fns.
+func callsFn(i ssa.Instruction, fns ...*ssa.Function) bool {
+	cc := callCommon(i)
+	if cc == nil {
+		return false
+	}
+	c := calleeOrigin(cc)
+	if c == nil {
+		return false
+	}
+	for _, f := range fns {
+		if f != nil && c == f {
+			return true
+		}
+	}
+	return false
+}
+
 func shorten(s string) string {
 	s = strings.ReplaceAll(s, modPath+"/src/", "")
 	s = strings.ReplaceAll(s, modPath+"/", "")
